@@ -84,6 +84,13 @@ def _tol(atol):
     return max(10 * atol, 1e-7)
 
 
+def _tol_clean(atol, clean=True):
+    """clean_operations runs eject_phased_paulis / eject_z whose atol is documented in *turns*: a PhasedX half turn
+    whose axis is within atol turns of X or Y is replaced by the Pauli, a matrix error of up to 4*pi*atol = 12.6*atol
+    per replaced gate (two such gates allowed on top of the 10*atol of the synthesis itself)."""
+    return _tol(atol) if not clean else max(35 * atol, 1e-7)
+
+
 def _atol(r, allowed=None):
     """Option value from the recipe; values outside the generated domain (minimiser zeroing a number) are rejected."""
     a = r.get("atol", 1e-8)
@@ -315,15 +322,18 @@ def oracle_oneq(r):
     m = eye
     for g in pxz:
         m = cirq.unitary(g) @ m
-    _cmp(f"single_qubit_matrix_to_phased_x_z(atol={atol})", m, u, tol, True)
+    # gates are dropped by trace_distance_bound(g) <= atol, a cosine-based bound that cannot resolve rotations below
+    # sqrt(2*eps) ~ 3e-8 rad from the identity (matrix error 1.5e-8) even at atol = 0
+    tol_td = max(tol, 3e-8)
+    _cmp(f"single_qubit_matrix_to_phased_x_z(atol={atol})", m, u, tol_td, True)
     # phxz
     g = cirq.single_qubit_matrix_to_phxz(u, atol)
     if g is None:
-        _cmp(f"single_qubit_matrix_to_phxz(atol={atol}) returned None for a non-identity", eye, u, tol, True)
+        _cmp(f"single_qubit_matrix_to_phxz(atol={atol}) returned None for a non-identity", eye, u, tol_td, True)
     else:
         if not isinstance(g, cirq.PhasedXZGate):
             raise Violation(f"single_qubit_matrix_to_phxz returned {type(g).__name__}")
-        _cmp(f"single_qubit_matrix_to_phxz(atol={atol})", cirq.unitary(g), u, tol, True)
+        _cmp(f"single_qubit_matrix_to_phxz(atol={atol})", cirq.unitary(g), u, tol_td, True)
     g = cirq.PhasedXZGate.from_matrix(u)
     _cmp("PhasedXZGate.from_matrix", cirq.unitary(g), u, 1e-8, True)
     # axis-angle
@@ -621,9 +631,9 @@ def _cz_case(draw):
 def oracle_cz(r):
     u, info = _input_2q(r["u"])
     v = info["v"]
-    atol = _atol(r)
-    tol = _tol(atol)
+    atol = _atol(r, G.ATOLS + [1e-10])  # 1e-10 is not generated, only used by the regression input of f3190e3
     partial, clean, fn = bool(r.get("partial")), bool(r.get("clean", True)), r.get("fn", "cz")
+    tol = _tol_clean(atol, clean)
     a, b = _qs(2)[::-1] if r.get("swapq") else _qs(2)
     lab = _labels2q(info, fn=fn, partial=partial, clean=clean, atol=str(atol))
     lab["nontrivial"] = bool(info["special"] or partial or not clean or atol != 1e-8)
@@ -1276,7 +1286,7 @@ def oracle_named_gates(r):
     lab["n_sqisw"] = two_only(what, ops, [cirq.SQRT_ISWAP_INV if inv else cirq.SQRT_ISWAP], 3)
     what = f"two_qubit_matrix_to_cz_operations(unitary of {tag}, allow_partial_czs={partial})"
     ops = cirq.two_qubit_matrix_to_cz_operations(q0, q1, cirq.unitary(gate), partial)
-    _cmp(what, _product(ops, [a, b]), u, 1e-7, True)
+    _cmp(what, _product(ops, [a, b]), u, _tol_clean(1e-8), True)
     _check_arity(what, ops)
     two = _two_qubit_ops(ops)
     if len(two) > 3 or any(not isinstance(o.gate, cirq.CZPowGate) or (not partial and o.gate != cirq.CZ) for o in two):
@@ -1284,7 +1294,7 @@ def oracle_named_gates(r):
     lab["n_cz"] = len(two)
     what = f"two_qubit_matrix_to_ion_operations(unitary of {tag})"
     ops = cirq.two_qubit_matrix_to_ion_operations(q0, q1, cirq.unitary(gate))
-    _cmp(what, _product(ops, [a, b]), u, 1e-7, True)
+    _cmp(what, _product(ops, [a, b]), u, _tol_clean(1e-8), True)
     # G. objects with a unitary handed over directly
     kd = cirq.kak_decomposition(gate)
     _cmp(f"cirq.unitary(kak_decomposition({tag}))", cirq.unitary(kd), cirq.unitary(gate), 1e-7, False)
@@ -1416,6 +1426,17 @@ def _f_kak_rank_threshold(sub, r):
     return any(bool(np.any((sv > 0.5 * t) & (sv < 2 * t))) for t in ((1e-8, 1e-9) if atol is None else (atol,)))
 
 
+def _f_isometry_illconditioned_diag(sub, r):
+    """|z| >= atol (three CZs by the linear reading) while the trace invariants of Shende et al. are within 1e-7 of a
+    <= 2-CNOT class: the diagonal extraction solves a condition that is quadratic in the coordinates there, its result
+    keeps a residual z ~ sqrt(eps) > atol and the isometry synthesis still emits a third CZ."""
+    if sub != "cz" or r.get("fn") != "iso":
+        return False
+    _, info = G.build_2q(r["u"])
+    v = info["v"]
+    return R.cz_class(v, float(r.get("atol", 1e-8)) / 100) == 3 and R.shende_count(v, 1e-7) < 3
+
+
 def _f_fsim4_drops_small_z(sub, r):
     """(sin y cos z)^2 > 0.5 - 1e-12 (hard-coded branch) although y, z are not exactly (pi/4, 0)."""
     if sub not in ("fsim4", "named_gates"):
@@ -1425,6 +1446,7 @@ def _f_fsim4_drops_small_z(sub, r):
 
 
 KNOWN_FEATURES = {
+    "C15_isometry_illconditioned_diag": _f_isometry_illconditioned_diag,
     "C15_kak_rank_threshold": _f_kak_rank_threshold,
     "C15_fsim4_face_threshold": _f_fsim4_face_threshold,
     "C15_fsim4_drops_small_z": _f_fsim4_drops_small_z,
